@@ -32,6 +32,7 @@ type Evaluator struct {
 	endRules       []*Rule
 	endFileRules   []*Rule
 	fuzzing        bool
+	evalDepth      int
 }
 
 var (
@@ -44,6 +45,11 @@ var (
 
 var fuzzingLoopLimit = 10000
 var callDepthLimit = 4096
+
+// how deeply evaluation may nest (expressions within statements within calls).
+// The call depth limit alone does not bound the Go stack: a frame costs as
+// much stack as its call sits deep inside the function body
+var evalDepthLimit = 100000
 
 func NewEvaluator(prog Program, lexer *Lexer, stdout io.Writer) Evaluator {
 	e := Evaluator{
@@ -212,6 +218,12 @@ func (e *Evaluator) evalString(str string) (*Cell, error) {
 }
 
 func (e *Evaluator) evalExpr(expr Expr) (*Cell, error) {
+	e.evalDepth++
+	defer func() { e.evalDepth-- }()
+	if e.evalDepth > evalDepthLimit {
+		return nil, e.error(expr.Token(), "evaluation nested too deeply")
+	}
+
 	switch exp := expr.(type) {
 	case *ExprLiteral:
 		switch exp.token.Tag {
@@ -870,6 +882,12 @@ func (e *Evaluator) evalExprList(exprs []Expr, copy bool) ([]*Cell, error) {
 }
 
 func (e *Evaluator) evalStatement(stmt Statement) error {
+	e.evalDepth++
+	defer func() { e.evalDepth-- }()
+	if e.evalDepth > evalDepthLimit {
+		return e.error(stmt.Token(), "evaluation nested too deeply")
+	}
+
 	switch st := stmt.(type) {
 	case *StatementBlock:
 		for _, s := range st.Body {
